@@ -1741,6 +1741,27 @@ def _abort_flow(
         _remove_head_from_event_matching_structures(state, flow_state, head)
     flow_state.heads.clear()
 
+    if flow_state.flow_id == "main" and not deactivate_flow:
+        # The main flow behaves like an activated flow: also a failed main flow waits
+        # for its next start (see _finish_flow)
+        head_uid = new_uuid()
+        new_head = FlowHead(
+            uid=head_uid,
+            flow_state_uid=flow_state.uid,
+            matching_scores=[],
+        )
+        new_head.position_changed_callback = partial(
+            _flow_head_changed, state, flow_state
+        )
+        new_head.status_changed_callback = partial(
+            _flow_head_changed, state, flow_state
+        )
+        flow_state.status = FlowStatus.WAITING
+        flow_state.heads = {head_uid: new_head}
+        _flow_head_changed(state, flow_state, new_head)
+        log.info("Main flow failed and restarting...")
+        return
+
     # Remove flow uid from parents children list
     if (
         flow_state.activated == 0
